@@ -1,0 +1,127 @@
+//go:build verif
+
+package lossless
+
+import "github.com/deepteams/webp/internal/bitio"
+
+// Thin wrappers around the unexported VP8L transform and value-code
+// functions for the external verification harness. They add no behaviour.
+
+// --- pixel helpers (encoder and decoder each have their own copy) ---
+
+func VerifAddPixels(a, b uint32) uint32    { return addPixels(a, b) }
+func VerifSubPixels(a, b uint32) uint32    { return subPixels(a, b) }
+func VerifSubPixelsEnc(a, b uint32) uint32 { return subPixelsEnc(a, b) }
+func VerifAverage2(a, b uint32) uint32     { return average2(a, b) } // decoder
+func VerifAvg2(a, b uint32) uint32         { return avg2(a, b) }     // encoder
+
+func VerifSelectPredictor(l, t, tl uint32) uint32 { return selectPredictor(l, t, tl) } // decoder
+func VerifSelectPred(l, t, tl uint32) uint32      { return selectPred(l, t, tl) }      // encoder
+
+func VerifClampedAddSubtractFull(a, b, c uint32) uint32 { return clampedAddSubtractFull(a, b, c) }
+func VerifClampAddSubFull(a, b, c uint32) uint32        { return clampAddSubFull(a, b, c) }
+func VerifClampedAddSubtractHalf(avg, c uint32) uint32  { return clampedAddSubtractHalf(avg, c) }
+func VerifClampAddSubHalf(avg, c uint32) uint32         { return clampAddSubHalf(avg, c) }
+
+func VerifPredictPixel(mode int, left, top, topRight, topLeft uint32) uint32 {
+	return predictPixel(mode, left, top, topRight, topLeft)
+}
+
+// multipliersOfWord unpacks a transform-data word the way the decoder does.
+func multipliersOfWord(t uint32) Multipliers {
+	return Multipliers{GreenToRed: int8(t), GreenToBlue: int8(t >> 8), RedToBlue: int8(t >> 16)}
+}
+
+func VerifPackMultipliers(g2r, g2b, r2b int8) uint32 {
+	return packMultipliers(Multipliers{GreenToRed: g2r, GreenToBlue: g2b, RedToBlue: r2b})
+}
+
+func VerifApplyColorTransformPixel(tileWord, argb uint32) uint32 {
+	return applyColorTransformPixel(multipliersOfWord(tileWord), argb)
+}
+
+// --- forward transforms with explicit parameters ---
+
+// VerifCopyImageWithPrediction runs copyImageWithPrediction with the given
+// mode image and returns the residuals.
+func VerifCopyImageWithPrediction(argb []uint32, width, height, bits int, modes []uint32) []uint32 {
+	out := make([]uint32, len(argb))
+	copyImageWithPrediction(argb, width, height, bits, modes, out)
+	return out
+}
+
+// VerifApplyColorTransform applies applyColorTransformTile to every tile with
+// the multipliers taken from tiles (same layout as ColorSpaceTransform's
+// result). argb is not modified.
+func VerifApplyColorTransform(argb []uint32, width, height, bits int, tiles []uint32) []uint32 {
+	out := make([]uint32, len(argb))
+	copy(out, argb)
+	tileXSize := VP8LSubSampleSize(width, bits)
+	tileYSize := VP8LSubSampleSize(height, bits)
+	for ty := 0; ty < tileYSize; ty++ {
+		for tx := 0; tx < tileXSize; tx++ {
+			applyColorTransformTile(out, width, height, tx, ty, bits, multipliersOfWord(tiles[ty*tileXSize+tx]))
+		}
+	}
+	return out
+}
+
+// --- inverse transforms ---
+
+// VerifInverseTransform runs inverseTransform with separate input and output
+// buffers; the output has xsize*ysize pixels.
+func VerifInverseTransform(typ TransformType, bits, xsize, ysize int, data, in []uint32) []uint32 {
+	t := &Transform{Type: typ, Bits: bits, XSize: xsize, YSize: ysize, Data: data}
+	n := xsize * ysize
+	src := in
+	if len(src) < n { // packed colour-index input is shorter than the output
+		src = make([]uint32, n)
+		copy(src, in)
+	}
+	out := make([]uint32, n)
+	inverseTransform(t, 0, ysize, src, out)
+	return out
+}
+
+// VerifApplyInverseTransforms builds a Decoder holding the given transforms
+// (stream order) and runs applyInverseTransforms on pixels. pixels must have
+// width*height entries (packed data at the front), as in DecodeVP8L.
+func VerifApplyInverseTransforms(ts []Transform, pixels []uint32) []uint32 {
+	dec := &Decoder{}
+	for i := range ts {
+		dec.transforms[i] = ts[i]
+	}
+	dec.nextTransform = len(ts)
+	buf := make([]uint32, len(pixels))
+	copy(buf, pixels)
+	out := dec.applyInverseTransforms(buf)
+	res := make([]uint32, len(out))
+	copy(res, out)
+	return res
+}
+
+func VerifExpandColorMap(numColors, bits int, palette []uint32) []uint32 {
+	return expandColorMap(numColors, bits, palette)
+}
+
+// --- value codes ---
+
+// VerifGetCopyDistance runs getCopyDistance on a reader whose first bits are
+// extra (LSB first).
+func VerifGetCopyDistance(sym int, extra uint32) int {
+	data := make([]byte, 16)
+	for i := 0; i < 4; i++ {
+		data[i] = byte(extra >> (8 * uint(i)))
+	}
+	return getCopyDistance(sym, bitio.NewLosslessReader(data))
+}
+
+func VerifGetCopyLength(sym int, extra uint32) int {
+	data := make([]byte, 16)
+	for i := 0; i < 4; i++ {
+		data[i] = byte(extra >> (8 * uint(i)))
+	}
+	return getCopyLength(sym, bitio.NewLosslessReader(data))
+}
+
+func VerifPlaneToCodeLUT() [128]uint8 { return planeToCodeLUT }
